@@ -24,6 +24,7 @@ structure RxObs where
   fx    : List FxObs
   live  : Nat := 0        -- ledger after the frame: live blocks, bytes (whole process)
   bytes : Nat := 0
+  allocFault : Bool := false   -- an allocation-fault schedule was active while this frame was handled (the platform may have refused memory)
 deriving Repr, DecidableEq
 
 def sends (fx : List FxObs) : List (List Nat) := fx.filterMap (fun x => match x with | .tx _ f => some f | _ => none)
@@ -145,6 +146,24 @@ def holdsC05Rx (s : SpecSt) (r : RxObs) : Bool :=
       else (sends r.fx).isEmpty
 
 def holdsC05 (own : List Nat) (t : List RxObs) : Bool := (specStates own {} t).all (fun p => holdsC05Rx p.1 p.2)
+
+/-- the same when the platform may refuse memory: a Hello that cannot be built is not sent — but a stranger is never answered,
+    the mapper (or the station that becomes it) gets at most one frame and that frame is a Hello, and who the mapper is does
+    not depend on whether the Hello could be built (the specification state is advanced as always) -/
+def holdsC05RxF (s : SpecSt) (r : RxObs) : Bool :=
+  if !isDiscover r.frame then
+    if decide (r.frame.length ≥ 32) && decide (fTos r.frame ≥ 2) then (sends r.fx).isEmpty else true
+  else
+    match s.mapper with
+    | .unknown => true
+    | .none => decide ((sends r.fx).length ≤ 1) && (helloReplies r.fx).length == (sends r.fx).length
+    | .active m _ =>
+      if fRealSrc r.frame == m then decide ((sends r.fx).length ≤ 1) && (helloReplies r.fx).length == (sends r.fx).length
+      else (sends r.fx).isEmpty
+
+/-- what `./check C05` evaluates: the exact clause on frames handled without allocation faults, the relaxed one on the others -/
+def holdsC05F (own : List Nat) (t : List RxObs) : Bool :=
+  (specStates own {} t).all (fun p => if p.2.allocFault then holdsC05RxF p.1 p.2 else holdsC05Rx p.1 p.2)
 
 /-- an accepted Discover is answered by exactly one Hello with these header fields -/
 def holdsC03Rx (r : RxObs) : Bool :=
